@@ -87,7 +87,7 @@ def py_lex(s: str):
         with warnings.catch_warnings():
             warnings.simplefilter("ignore")
             tok = next(tokenize.generate_tokens(io.StringIO(s2).readline))
-            if tok.type != tokenize.STRING or tok.start != (1, 0) or not tok.string.startswith('"'):
+            if tok.type != tokenize.STRING or tok.start != (1, 0) or tok.string[0] not in "\"'" or tok.string.startswith("'''"):
                 return None
             val = ast.literal_eval(tok.string)
     except (tokenize.TokenError, SyntaxError, ValueError, StopIteration, UnicodeError, IndentationError):
@@ -107,6 +107,8 @@ def gen_literal(rng) -> str:
     body = "".join(rng.choice(LEX_ALPHA) for _ in range(rng.randint(0, 10)))
     r = rng.random()
     rest = rng.choice(["", ",", ": 1", "\n", " # c", ")", " x", '"', "'"])
+    if r < 0.12:   # single-quoted literal (read by the model through the quote exchange)
+        return "'" + body.replace("\n", "n") + "'" + rest
     if r < 0.5:
         return '"' + body + '"' + rest
     if r < 0.85:
@@ -121,7 +123,7 @@ def lex_corpus() -> list[str]:
             '"\\U00110000"', '"\\ud83d\\ude00"', '"\\N{DASH}"', '"\\777"', '"\\18"', '"\\0"', '"a\nb"', '"a\rb"', '"""a\rb"""',
             '"""a\r\nb"""', '"a\\\nb"', '"a\\\r\nb"', '"""a\\"""', '"""a\\""""', '"""a""""', '"""a"" """', '"a\x00b"', '"a',
             '"""a""', 'x"a"', '"" "', '"\\', '"""\\', '"\\\r"', '"""\\\r"""', '"\\8"', '"\\x4\n1"', '"\\U0010FFFF"', '"\\U0010ffff1"', '"a\ud800b"', '"\\ud800"',
-            '"""\udfff"""']
+            '"""\udfff"""', "'a'", "'a\\'b'", "'a\"b'", "'a'b'", "'\\x41\\u00e9'", "''", "'' x", "'a\nb'", "'\\\"'"]
 
 
 def c_lex_case(s: str, exp) -> str:
@@ -195,17 +197,35 @@ def _url_args(kind: str, required: bool) -> Callable[[str], str]:
 
 
 def r_media_overload(t: str) -> str:
-    """overload_generator: content_type: Literal["…"] = "…" (the signature text is returned)"""
-    from pyopenapi_gen.visit.endpoint.generators import overload_generator as og
-    src = Path(og.__file__).read_text()
-    mod = ast.parse(src)
-    # the f-string is evaluated in isolation: same template, same interpolation (no surrounding state is involved)
-    for n in ast.walk(mod):
+    """overload_generator._generate_single_overload: content_type: Literal[…] = … (whole @overload stub, through write_block)"""
+    from types import SimpleNamespace as NS
+    from pyopenapi_gen.ir import IRSchema
+    from pyopenapi_gen.visit.endpoint.generators.overload_generator import OverloadMethodGenerator
+    import logging
+    logging.disable(logging.CRITICAL)
+    try:
+        code = OverloadMethodGenerator({})._generate_single_overload(
+            NS(parameters=[], operation_id="op"), t, IRSchema(name=None, type="string", format="binary"), _ctx(), NS(return_type="None"))
+    finally:
+        logging.disable(logging.NOTSET)
+    return through_block(code)
+
+
+def _eval_fstring_site(module, prefix: str, env: dict) -> str:
+    src = Path(module.__file__).read_text()
+    for n in ast.walk(ast.parse(src)):
         if isinstance(n, ast.JoinedStr):
             consts = "".join(v.value for v in n.values if isinstance(v, ast.Constant))
-            if consts.startswith("content_type: Literal["):
-                return through_block(eval(compile(ast.Expression(n), "<site>", "eval"), {"content_type": t}))
-    raise RuntimeError("overload_generator: content_type Literal f-string not found")
+            if consts.startswith(prefix):
+                return eval(compile(ast.Expression(n), "<site>", "eval"), dict(env))
+    raise RuntimeError(f"{module.__name__}: f-string starting with {prefix!r} not found")
+
+
+def r_media_repr(t: str) -> str:
+    """url_args_generator: Content-Type of a raw bytes body, f'... {raw_content_type!r} ...' (evaluated in isolation: the
+    template and the conversion are the real ones, no surrounding state is involved), then write_block"""
+    from pyopenapi_gen.visit.endpoint.generators import url_args_generator as ug
+    return through_block(_eval_fstring_site(ug, '    **({"Content-Type": ', {"raw_content_type": t}))
 
 
 def r_default(t: str) -> str:
@@ -285,8 +305,8 @@ def _docwriter(role: str) -> Callable[[str], str]:
 #   kind 'block'   : fragment = the whole docstring around the text; pre/post are read from the sentinel render
 #   kind 'docw'    : DocumentationWriter output (relational model)
 #   kind 'comment' : fragment = "  # …" to the end of the output line
-FIND = {"F15a": 1, "F15b": 2, "F15c": 3, "F15d": 4, "F15e": 5, "F15f": 6, "F15g": 7, "F15h": 8, "F15i": 9, "F15j": 10, "F15k": 11,
-        "F15l": 12}
+# F15a-k are FIXED in /repo: a failure at those sites is a VIOLATION.  Still open: F15l (enum-typed default, bit 12)
+FIND = {"F15l": 12}
 SITES: dict[str, dict] = {
     "enum_value":     {"n": 1, "kind": "dq", "f": "F15a", "r": r_enum_value},
     "meta_key":       {"n": 2, "kind": "dq", "f": "F15b", "r": r_meta_key},
@@ -297,6 +317,7 @@ SITES: dict[str, dict] = {
     "header_key":     {"n": 6, "kind": "dq", "f": "F15f", "r": _url_args("header", True)},
     "header_key_opt": {"n": 6, "kind": "dq", "f": "F15f", "r": _url_args("header", False)},
     "media_type":     {"n": 7, "kind": "dq", "f": "F15j", "r": r_media_overload},
+    "media_repr":     {"n": 20, "kind": "dq", "f": None, "r": r_media_repr},
     "default":        {"n": 8, "kind": "dq", "f": "F15h", "r": r_default},
     "default_int":    {"n": 8, "kind": "dq", "f": "F15h", "r": _typed_default("integer")},
     "default_num":    {"n": 8, "kind": "dq", "f": "F15h", "r": _typed_default("number")},
@@ -476,6 +497,8 @@ def c_site_case(case: dict) -> str:
     parts = list(info["parts"])
     if S["kind"] == "ident":
         parts.append(t.upper())      # str.upper is Unicode-aware: supplied to the model for non-ASCII text
+    if S["n"] == 20:                 # str.isprintable on the non-ASCII characters of t: Unicode data base oracle of repr
+        parts.append("".join(sorted({ch for ch in t if ord(ch) >= 128 and ch.isprintable()})))
     return f"({S['n']}, ({cstr(t)}, ({clist(cstr(p) for p in parts)}, {cstr(out)})))"
 
 
@@ -502,6 +525,10 @@ def doc(T: dict[str, str] | None = None) -> dict:
                          g("media"): {"schema": {"type": "string", "format": "binary"}}}},
                      "responses": {"200": {"description": "ok", "content": {
                          "application/json": {"schema": {"$ref": "#/components/schemas/Item"}}}}}},
+            "patch": {"operationId": "put_blob", "tags": [g("tag")], "summary": "Blob.",
+                      "parameters": [{"name": "id", "in": "path", "required": True, "schema": {"type": "string"}}],
+                      "requestBody": {"required": True, "content": {g("media2"): {"schema": {"type": "string", "format": "binary"}}}},
+                      "responses": {"204": {"description": "ok"}}},
             "put": {"operationId": "set_item", "tags": [g("tag")], "summary": "Set.",
                     "parameters": [{"name": "id", "in": "path", "required": True, "schema": {"type": "string"}}],
                     "requestBody": {"description": g("bodydesc"), "required": True, "content": {
@@ -553,6 +580,7 @@ POSITIONS: dict[str, dict] = {
     "summary2":  {"value": False, "sites": [14]},
     "bodydesc":  {"value": False, "sites": [12]},
     "media":     {"value": True, "sites": [7, 14, 12]},
+    "media2":    {"value": True, "sites": [20, 12]},
     "schemadesc": {"value": False, "sites": [12]},
     "propdesc":  {"value": False, "sites": [12, 10]},
     "propdesc2": {"value": False, "sites": [12, 10]},
@@ -590,8 +618,7 @@ def sites_for(pos: str, t: str) -> list[int]:
     return POSITIONS[pos]["sites"]
 
 
-SITE_FINDING = {17: "F15l", 18: "F15l", 19: "F15l", 1: "F15a", 2: "F15b", 3: "F15i", 4: "F15i", 5: "F15f", 6: "F15f", 7: "F15j", 8: "F15h", 9: "F15c", 10: "F15e",
-                11: "F15k", 12: "F15d", 13: "F15k", 14: "F15k", 15: "F15g", 16: "F15g"}
+SITE_FINDING = {17: "F15l", 18: "F15l", 19: "F15l"}
 
 
 def skeleton(tree: ast.AST) -> str:
@@ -804,7 +831,7 @@ def main(chk: Check, replay: dict | None = None) -> int:
 
     # ---- (i) lexer model vs CPython
     lits = lex_corpus() + [gen_literal(rng) for _ in range(6000 if chk.thorough else 1500)]
-    lits = [s for s in lits if "\x00" not in s or s in lex_corpus()]
+    lits = [s for s in lits if ("\x00" not in s or s in lex_corpus()) and not s.startswith("'''")]
     lex_cases = []
     n_err = n_n = 0
     for s in lits:
@@ -822,14 +849,14 @@ def main(chk: Check, replay: dict | None = None) -> int:
     chk.decide(lex_cases, codes, {}, "Corr.C15.run_lex: lex_str(model) = CPython tokenize + literal_eval")
 
     # ---- (ii) sites
-    texts = list(dict.fromkeys([c["input"]["text"] for c in corpus if "site" in c["input"]] + HOSTILE + SITE_ONLY_HOSTILE))
     site_cases = []
     for c in corpus:
         if "site" in c["input"]:
             site_cases.append(run_site(c["input"]["site"], c["input"]["text"]))
     nrand = 120 if chk.thorough else 12
     for sid, S in SITES.items():
-        ts = list(HOSTILE) + SITE_ONLY_HOSTILE + [rand_text(rng) for _ in range(nrand)] + [rand_text(rng, 60, 200) for _ in range(3)]
+        ts = list(HOSTILE) + (SITE_ONLY_HOSTILE if S["n"] in (5, 6, 7, 20) else []) + [rand_text(rng) for _ in range(nrand)] \
+            + [rand_text(rng, 60, 200) for _ in range(3)]
         for t in ts:
             if t == "" and S.get("skip_empty"):
                 continue
